@@ -1308,7 +1308,7 @@ def run(ctx, prop):
     # ------------------------------------------------------------------ programs
     progs = dict(pool.POOL)
     progs.update(EXTRA)
-    n_gen = ctx.scale(12, 48)
+    n_gen = ctx.scale(12, 36)
     grng = __import__("random").Random(f"gen:{prop}:{ctx.seed}")
     for k in range(n_gen):
         nm, src = gen_program(grng, k, allow_alias=(k % 6 == 0))
@@ -1318,14 +1318,15 @@ def run(ctx, prop):
         keep = set(only.split(","))
         progs = {k: v for k, v in progs.items() if k in keep}
         ctx.assumptions.append(f"VERIF_CC_ONLY set: program set restricted to {sorted(keep)}")
+    light = os.environ.get("VERIF_CC_LIGHT") == "1"   # development aid: few stream attempts per program
     saved = dict(pool.POOL)
     pool.POOL.clear()
     pool.POOL.update(progs)
     try:
         recs = sched_run.run_stream(
             ctx, ["obs_cc"], nvariants=1,
-            opts={"depth": ctx.scale(1, 2), "max_attempts": ctx.scale(25, 120), "depth2_attempts": 15, "depth2_procs": 3,
-                  "cc_per_op": ctx.scale(1, 2), "cc_total": ctx.scale(4, 20), "cc_prob": 0.6,
+            opts={"depth": ctx.scale(1, 2), "max_attempts": 8 if light else ctx.scale(25, 90), "depth2_attempts": 15, "depth2_procs": 3,
+                  "cc_per_op": ctx.scale(1, 2), "cc_total": ctx.scale(4, 14), "cc_prob": 0.6,
                   "n_inputs0": ctx.scale(4, 8), "n_inputs": ctx.scale(3, 4), "salt": prop,
                   "record_limit": ctx.scale(250, 800)})
     finally:
@@ -1379,7 +1380,7 @@ def run(ctx, prop):
     rec = ccmodel.Recorder(limit=ctx.scale(1500, 6000))
     rec.install()
     try:
-        ccmodel.random_cases(rec, ctx.rng, ctx.scale(1500, 8000), ctx.scale(150, 800))
+        ccmodel.random_cases(rec, ctx.rng, 200 if light else ctx.scale(1500, 8000), 30 if light else ctx.scale(150, 800))
     finally:
         rec.uninstall()
     for req, exp in rec.cases.items():
